@@ -193,6 +193,227 @@ theorem spec_accepts_model (rate : Int) (s : St) (last : Option Int) (now pts ou
     · rfl
   · rfl
 
+/-! ### round 2: the observable form of the property (Model/C25 `obsStep`) is met by the model
+
+`obsStep` is what the check evaluates at the integration sites (`stream` always-available paths,
+`hls.ToStream`), where only the emitted frames `(now, pts, ntp)` are visible.  The theorem below shows it
+demands nothing the estimator does not deliver when it is fed the outgoing frame timestamps at the outgoing
+clock rate: over every history, from the initial state. -/
+
+/-- truncated division is additive up to 2 -/
+theorem tdiv_add_close (x y d : Int) (hd : 0 < d) :
+    -2 ≤ Int.tdiv (x + y) d - Int.tdiv x d - Int.tdiv y d ∧
+    Int.tdiv (x + y) d - Int.tdiv x d - Int.tdiv y d ≤ 2 := by
+  have e1 := Int.tdiv_mul_add_tmod x d
+  have e2 := Int.tdiv_mul_add_tmod y d
+  have e3 := Int.tdiv_mul_add_tmod (x + y) d
+  have u1 := Int.tmod_lt_of_pos x hd
+  have u2 := Int.tmod_lt_of_pos y hd
+  have u3 := Int.tmod_lt_of_pos (x + y) hd
+  have l1 := Int.lt_tmod_of_pos x hd
+  have l2 := Int.lt_tmod_of_pos y hd
+  have l3 := Int.lt_tmod_of_pos (x + y) hd
+  have hk : (Int.tdiv (x + y) d - Int.tdiv x d - Int.tdiv y d) * d
+      = Int.tmod x d + Int.tmod y d - Int.tmod (x + y) d := by
+    rw [Int.sub_mul, Int.sub_mul]; omega
+  generalize Int.tdiv (x + y) d - Int.tdiv x d - Int.tdiv y d = k at hk
+  constructor
+  · apply Int.not_lt.mp
+    intro hlt
+    have h3 : k ≤ -3 := by omega
+    have : k * d ≤ -3 * d := Int.mul_le_mul_of_nonneg_right h3 (by omega)
+    omega
+  · apply Int.not_lt.mp
+    intro hlt
+    have h3 : 3 ≤ k := by omega
+    have : 3 * d ≤ k * d := Int.mul_le_mul_of_nonneg_right h3 (by omega)
+    omega
+
+theorem exact_add_close (a b rate : Int) (hr : 0 < rate) :
+    -2 ≤ exact (a + b) nsPerSec rate - exact a nsPerSec rate - exact b nsPerSec rate ∧
+    exact (a + b) nsPerSec rate - exact a nsPerSec rate - exact b nsPerSec rate ≤ 2 := by
+  unfold exact
+  rw [Int.add_mul]
+  exact tdiv_add_close _ _ rate hr
+
+theorem exact_in_of_small (x rate : Int) (hx : -(2 ^ 33) ≤ x ∧ x ≤ 2 ^ 33) :
+    InI64 (exact x nsPerSec rate) := by
+  unfold exact nsPerSec InI64
+  have h := Int.natAbs_tdiv_le_natAbs (x * 1000000000) rate
+  omega
+
+/-- the model's outputs over a history, as a trace of emitted frames -/
+def modelTrace (rate : Int) : St → List (Int × Int) → List (Bool × Int × Int × Int)
+  | _, [] => []
+  | s, (now, pts) :: rest =>
+    let r := step rate s now pts
+    (true, now, pts, r.2.getD 0) :: modelTrace rate r.1 rest
+
+/-- what links the observer's memory to the estimator's state -/
+def ObsInv (rate : Int) (s : St) (o : Obs) : Prop :=
+  match o.last with
+  | none => s.refNTP = 0
+  | some (pn, pp) =>
+    o.small = true → (s.refNTP ≠ 0 ∧ ptsSmall s.refPTS = true ∧ ptsSmall pp = true ∧
+      pn = s.refNTP + exact (pp - s.refPTS) nsPerSec rate)
+
+theorem obsStep_fst (rOut tol : Int) (o : Obs) (sm : Bool) (now pts ntp : Int) :
+    (obsStep rOut tol o sm now pts ntp).1
+      = { last := some (ntp, pts), small := o.small && ptsSmall pts && sm } := rfl
+
+/-- the observable spec is satisfied as soon as the bounds hold and, when a demand is made, it is met -/
+theorem obsStep_ok (rOut tol : Int) (o : Obs) (sm : Bool) (now pts ntp : Int)
+    (hb : now - maxDiff ≤ ntp ∧ ntp ≤ now)
+    (hd : ∀ pn pp, o.last = some (pn, pp) → (o.small && ptsSmall pts && sm) = true → pp ≤ pts →
+      now - maxDiff + tol ≤ pn + exact (pts - pp) nsPerSec rOut →
+      pn + exact (pts - pp) nsPerSec rOut ≤ now + tol →
+      ntp - (pn + exact (pts - pp) nsPerSec rOut) ≤ 2 * tol ∧
+      (pn + exact (pts - pp) nsPerSec rOut) - ntp ≤ 2 * tol) :
+    (obsStep rOut tol o sm now pts ntp).2 = none := by
+  simp only [obsStep]
+  rw [if_neg (by omega), if_neg (by omega)]
+  cases hl : o.last with
+  | none => rfl
+  | some lp =>
+    obtain ⟨pn, pp⟩ := lp
+    simp only
+    split
+    · rename_i c1
+      split
+      · rename_i c2
+        rw [if_pos (hd pn pp hl c1.1 c1.2.2 c2.1 c2.2)]
+      · rfl
+    · rfl
+
+theorem obsStep_model (rate : Int) (hr : rateOK rate = true) (s : St) (o : Obs) (now pts : Int)
+    (hn : now ≠ 0) (hi : ObsInv rate s o) :
+    (obsStep rate 4 o true now pts ((step rate s now pts).2.getD 0)).2 = none ∧
+    ObsInv rate (step rate s now pts).1 (obsStep rate 4 o true now pts ((step rate s now pts).2.getD 0)).1 := by
+  have hr' := hr
+  simp only [rateOK, decide_eq_true_eq] at hr'
+  have hne : rate ≠ 0 := by omega
+  cases hout : (step rate s now pts).2 with
+  | none => exact absurd hout (step_no_panic rate s now pts hne)
+  | some out =>
+  have hb := step_bounds rate s now pts out hout
+  simp only [Option.getD]
+  rw [obsStep_fst]
+  by_cases h0 : s.refNTP = 0
+  · -- (re-)initialisation: output = now, new anchor (now, pts)
+    have hs := step_init rate s now pts h0
+    rw [hs] at hout ⊢
+    simp only [Option.some.injEq] at hout
+    subst hout
+    constructor
+    · apply obsStep_ok _ _ _ _ _ _ _ hb
+      intro pn pp hl hsm _ _ _
+      -- an observer that still trusts its memory contradicts an uninitialised estimator
+      unfold ObsInv at hi
+      rw [hl] at hi
+      simp only [Bool.and_eq_true] at hsm
+      exact absurd h0 (hi hsm.1.1).1
+    · unfold ObsInv
+      simp only
+      intro hsm
+      simp only [Bool.and_eq_true] at hsm
+      exact ⟨hn, hsm.1.2, hsm.1.2, by simp [exact]⟩
+  · -- anchored
+    by_cases hsmall : (o.small && ptsSmall pts && true) = true
+    · have hos : o.small = true := by simp only [Bool.and_eq_true] at hsmall; exact hsmall.1.1
+      have hps : ptsSmall pts = true := by simp only [Bool.and_eq_true] at hsmall; exact hsmall.1.2
+      cases hl : o.last with
+      | none => unfold ObsInv at hi; rw [hl] at hi; exact absurd hi h0
+      | some lp =>
+        obtain ⟨pn, pp⟩ := lp
+        have hi' := hi
+        unfold ObsInv at hi'
+        rw [hl] at hi'
+        obtain ⟨_, hp0, hpp, hpn⟩ := hi' hos
+        have hps' := hps
+        have hp0' := hp0
+        have hpp' := hpp
+        simp only [ptsSmall, decide_eq_true_eq] at hps' hp0' hpp'
+        have hx : exactRange rate s.refPTS pts = true := by
+          simp only [exactRange, Bool.and_eq_true, decide_eq_true_eq]
+          refine ⟨⟨hr, ?_⟩, exact_in_of_small _ rate (by omega)⟩
+          unfold InI64; omega
+        have hd := delta_exact rate s pts hx
+        have hclose := exact_add_close (pp - s.refPTS) (pts - pp) rate (by omega)
+        have hsum : pp - s.refPTS + (pts - pp) = pts - s.refPTS := by omega
+        rw [hsum] at hclose
+        by_cases hw : now - maxDiff ≤ s.refNTP + exact (pts - s.refPTS) nsPerSec rate ∧
+            s.refNTP + exact (pts - s.refPTS) nsPerSec rate ≤ now
+        · have hs := step_anchored rate s now pts _ h0 hd hw
+          rw [hs] at hout ⊢
+          simp only [Option.some.injEq] at hout
+          subst hout
+          constructor
+          · apply obsStep_ok _ _ _ _ _ _ _ hb
+            intro pn2 pp2 hl2 _ _ _ _
+            rw [hl] at hl2
+            simp only [Option.some.injEq, Prod.mk.injEq] at hl2
+            obtain ⟨rfl, rfl⟩ := hl2
+            omega
+          · unfold ObsInv
+            simp only
+            intro _
+            exact ⟨h0, hp0, hps, trivial⟩
+        · have hw' : s.refNTP + exact (pts - s.refPTS) nsPerSec rate > now ∨
+              s.refNTP + exact (pts - s.refPTS) nsPerSec rate < now - maxDiff := by omega
+          have hs := step_reanchor rate s now pts _ h0 hd hw'
+          rw [hs] at hout ⊢
+          simp only [Option.some.injEq] at hout
+          subst hout
+          constructor
+          · apply obsStep_ok _ _ _ _ _ _ _ hb
+            intro pn2 pp2 hl2 _ _ h1 h2
+            rw [hl] at hl2
+            simp only [Option.some.injEq, Prod.mk.injEq] at hl2
+            obtain ⟨rfl, rfl⟩ := hl2
+            omega
+          · unfold ObsInv
+            simp only
+            intro _
+            exact ⟨hn, hps, hps, by simp [exact]⟩
+    · -- a timestamp outside ±2^32 was seen: only the bounds are demanded from now on
+      have hsf : (o.small && ptsSmall pts && true) = false := by
+        cases h : (o.small && ptsSmall pts && true) <;> simp_all
+      constructor
+      · apply obsStep_ok _ _ _ _ _ _ _ hb
+        intro _ _ _ hsm
+        rw [hsf] at hsm
+        contradiction
+      · unfold ObsInv
+        simp only
+        intro hsm
+        rw [hsf] at hsm
+        contradiction
+
+/-- **The observable spec accepts every run of the model** (rate in `1 … 2^32`, wall clock never at the zero
+instant, any timestamps, any jumps): bounds always; consecutive absolute timestamps differ by the scaled
+frame-timestamp difference (±4 ns of truncation) whenever that prediction is inside the window. -/
+theorem obs_accepts_model (rate : Int) (hr : rateOK rate = true) (hist : List (Int × Int))
+    (hn : ∀ p ∈ hist, p.1 ≠ 0) :
+    ∀ (s : St) (o : Obs) (i : Nat), ObsInv rate s o →
+      obsRun rate 4 o i (modelTrace rate s hist) = none := by
+  induction hist with
+  | nil => intro s o i _; simp [modelTrace, obsRun]
+  | cons p rest ih =>
+    intro s o i hi
+    obtain ⟨now, pts⟩ := p
+    have h := obsStep_model rate hr s o now pts (hn (now, pts) List.mem_cons_self) hi
+    simp only [modelTrace, obsRun]
+    cases hstep : obsStep rate 4 o true now pts ((step rate s now pts).2.getD 0) with
+    | mk o' e =>
+      rw [hstep] at h
+      simp only at h
+      rw [h.1]
+      exact ih (fun q hq => hn q (List.mem_cons_of_mem _ hq)) _ o' (i + 1) h.2
+
+theorem obs_accepts_model_init (rate : Int) (hr : rateOK rate = true) (hist : List (Int × Int))
+    (hn : ∀ p ∈ hist, p.1 ≠ 0) : obsRun rate 4 {} 0 (modelTrace rate {} hist) = none :=
+  obs_accepts_model rate hr hist hn {} {} 0 rfl
+
 /-! ### non-vacuity / samples (tests, not theorems) -/
 
 -- the upstream unit test, in nanoseconds relative to an arbitrary non-zero origin 10^18
@@ -213,6 +434,7 @@ example : (step 1 ⟨10^18, 0⟩ (10^18 + 5) (2^62)).2 = some (10^18) := by deci
 -- zero clock rate panics on the second call
 example : (run 0 {} [(10^18, 0), (10^18 + 1, 1)]).2 = [some (10^18), none] := by decide
 -- quirk kept from the code: an estimator anchored at the zero instant counts as not initialised
+-- (this is why `obs_accepts_model` excludes a wall clock reading of exactly 0, i.e. January 1 of year 1)
 example : (run 90000 {} [(0, 7), (1000000000, 90007)]).1 = ⟨1000000000, 90007⟩ := by decide
 
 end MtxVerif.C25
